@@ -27,6 +27,8 @@ func TestVerifUploadRace(t *testing.T) {
 	rounds := verifrt.Scale(40, 1500)
 	verifrt.SetJitter(0.3)
 	defer verifrt.SetJitter(0)
+	verifrt.SetLockSpinLimit(20_000_000)
+	defer verifrt.SetLockSpinLimit(0)
 	for rd := 0; rd < rounds; rd++ {
 		rnd := verifrt.NewRand(verifrt.Seed(), fmt.Sprintf("urace/%d", rd))
 		s := genConcScenario(rnd, rd*3)
